@@ -156,9 +156,12 @@ def aged_sessions(ctx: Ctx):
              ["auth", "send", "authbad", "send", "close", "send", "send"], ["auth", "authbad", "full", "send", "send"]]
     for _ in range(ctx.pick(12, 200)):
         plans.append(["auth"] + [rng.choice(["send", "send", "half", "half", "auth", "authbad", "close", "full"]) for _ in range(rng.randint(4, 12))] + ["send"])
+    # the unit is provisioned anew and the user authenticates with the new credentials: every later handshake the library starts on its own carries THOSE
+    plans += [["auth", "send", "reprov", "auth", "send", "full", "send", "send"], ["auth", "reprov", "auth", "half", "half", "send", "send"],
+              ["auth", "send", "reprov", "auth", "close", "send", "send"], ["auth", "reprov", "auth", "reprov", "auth", "full", "send"]]
     nplain = len(plans)
     # ... and with a maximum connection lifetime configured (and configured AGAIN while the connection exists): it runs from the connection's establishment
-    plans += [["auth", "send", "setlife", "life", "send", "send"], ["auth", "setlife", "send", "setlife", "life", "send"],
+    plans += [["auth", "send", "reprov", "auth", "send", "life", "send", "send"], ["auth", "send", "setlife", "life", "send", "send"], ["auth", "setlife", "send", "setlife", "life", "send"],
               ["auth", "send", "life", "send", "setlife", "send", "life", "send"]]
     for _ in range(ctx.pick(8, 120)):
         plans.append(["auth"] + [rng.choice(["send", "send", "setlife", "life", "half", "close", "auth"]) for _ in range(rng.randint(4, 10))] + ["send"])
@@ -170,6 +173,8 @@ def aged_sessions(ctx: Ctx):
                 if a == "auth":
                     s.call_auth("good")
                     s.settle()
+                elif a == "reprov":
+                    s.reprovision()
                 elif a == "authbad":
                     s.call_auth("bad")          # credentials the unit does not know, presented on whatever session exists
                     s.settle()
